@@ -17,6 +17,8 @@ typedef enum { mxUNKNOWN_CLASS = 0, mxCELL_CLASS, mxSTRUCT_CLASS, mxLOGICAL_CLAS
 typedef enum { mxREAL = 0, mxCOMPLEX } mxComplexity;
 mxArray *mxCreateNumericArray(mwSize ndim, const mwSize *dims, mxClassID classid, mxComplexity flag);
 mxArray *mxCreateNumericMatrix(mwSize m, mwSize n, mxClassID classid, mxComplexity flag);
+mxArray *mxCreateUninitNumericMatrix(mwSize m, mwSize n, mxClassID classid, mxComplexity flag);
+mxArray *mxCreateUninitNumericArray(mwSize ndim, mwSize *dims, mxClassID classid, mxComplexity flag);
 mxArray *mxCreateDoubleMatrix(mwSize m, mwSize n, mxComplexity flag);
 mxArray *mxCreateDoubleScalar(double value);
 mxArray *mxCreateString(const char *str);
